@@ -18,7 +18,7 @@ LEVEL = "translation_validation"
 ASSUMPTIONS = [
     "every async call is awaited on one event loop; adapters/watchers are the recording ones of enf_corr (async variants with coroutine methods)",
     "no independent theorem: the property is the transitivity of two correspondences to the same Lean model plus the direct sync-vs-async comparison",
-    "models with conditional role managers are not in the history stream (observation F13b: the async grouping add does not maintain conditional links)",
+    "models with conditional role definitions (g = _, _, (_, _) / g = _, _, _, (_, _)) are compared sync vs async in a stream of their own (grouping management with parameters, link condition functions, load / build / clear / save); the Lean enforcer model has no conditional links, so that stream is two-way",
 ]
 TRUSTED_EXTRA = ["the AST normaliser of tools/harness/props/c18.py (erases async/await, collapses the coroutine dispatch)"]
 
@@ -285,7 +285,9 @@ def run(ctx):
         "after every call results, policies, adapter writes, notifications, ~40 decisions/role queries and ~35 public API queries (get_all_*, implicit roles/"
         "permissions/users, domain variants, batch_enforce, enforce_ex) are compared; Enforcer+FileAdapter vs AsyncEnforcer+AsyncFileAdapter on "
         "histories ending in save_policy + load_policy (incl. histories that empty the policy): results, policies and file bytes; filtered / incremental / full loads and "
-        "saves on Enforcer+FilteredFileAdapter vs AsyncEnforcer + the same adapter behind coroutine methods (all single calls and pairs, random histories); non-trivial/distinct = (configuration, history)"
+        "saves on Enforcer+FilteredFileAdapter vs AsyncEnforcer + the same adapter behind coroutine methods (all single calls and pairs, random histories); conditional role definitions "
+        "(g = _, _, (_, _) and the domain form) x 3 initial policies: every single call, pairs and random histories of grouping management with link parameters, link condition functions, load / "
+        "build_role_links / clear / save, sync vs async (results, policies, store, direct roles of the conditional manager, all decisions); non-trivial/distinct = (configuration, history)"
     )
     res.extra["programs"] = len(res.nontrivial)
     res.extra["disagreements_checked"] = res.n_spec + res.n_corr
@@ -470,6 +472,158 @@ def run_filtered_loads(ctx, res, deep):
                 break
 
 
+# ------------------------------------------------------------------ conditional role definitions (g = _, _, (_, _))
+
+_EFT = "[policy_effect]\ne = some(where (p.eft == allow))\n[matchers]\n"
+COND_TEXT = {
+    "cond": "[request_definition]\nr = sub, obj, act\n[policy_definition]\np = sub, obj, act\n[role_definition]\ng = _, _, (_, _)\n" + _EFT
+    + "m = g(r.sub, p.sub) && r.obj == p.obj && r.act == p.act\n",
+    "conddomain": "[request_definition]\nr = sub, dom, obj, act\n[policy_definition]\np = sub, dom, obj, act\n[role_definition]\ng = _, _, _, (_, _)\n" + _EFT
+    + "m = g(r.sub, p.sub, r.dom) && r.dom == p.dom && r.obj == p.obj && r.act == p.act\n",
+}
+COND_NAMES = ["alice", "bob", "admin", "staff"]
+COND_DOMS = ["d1", "d2"]
+
+
+def _cond_flag(flag, _other):
+    return flag == "T"
+
+
+def cond_universe(shape):
+    dom = shape == "conddomain"
+    P = [[x] + ([d] if dom else []) + ["res_" + x, "read"] for x in COND_NAMES for d in (COND_DOMS if dom else [None])]
+    keys = [(u, r) + ((d,) if dom else ()) for u in COND_NAMES for r in COND_NAMES if u != r for d in (COND_DOMS if dom else [None])]
+    return P, keys
+
+
+def cond_ops(shape):
+    """the alphabet of the conditional stream: grouping management with the link parameters, registration of link
+    condition functions, and every call that clears and rebuilds the role links"""
+    P, keys = cond_universe(shape)
+    ks = [k for k in keys if k[:2] in (("alice", "admin"), ("admin", "staff"), ("bob", "staff"), ("staff", "alice"))]
+    ops = []
+    for k in ks:
+        for flag in "TF":
+            ops.append(("addg", list(k) + [flag, "x"]))
+            ops.append(("removeg", list(k) + [flag, "x"]))
+        ops.append(("condfn", list(k)))
+    ops += [("addgs", [list(k) + ["T", "x"] for k in ks[:3]]), ("removegs", [list(k) + ["T", "x"] for k in ks[:3]])]
+    ops += [("load",), ("build",), ("clear",), ("save",), ("autobuild", False), ("autobuild", True)]
+    ops += [("removefg", 0, ["alice"]), ("removefg", 1, ["staff"])]
+    return ops
+
+
+def _cond_history(args):
+    """one history on Enforcer or AsyncEnforcer (every call awaited) over a conditional role definition, both started from
+    the same store through load_policy; after every call: result, policies, store content, the direct roles the
+    conditional manager holds and every decision enforce(u, [d,] res_x, read)"""
+    shape, init_g, hist, is_async = args
+    casbin = common.use_repo()
+    dom = shape == "conddomain"
+    P, keys = cond_universe(shape)
+    ad = ec.make_adapter(casbin, {"p": P, "g": init_g}, is_async=is_async)
+    if is_async:
+        e = casbin.AsyncEnforcer(casbin.AsyncEnforcer.new_model(text=COND_TEXT[shape]), ad)
+        ec.run_async(e.load_policy())
+    else:
+        e = casbin.Enforcer(casbin.Enforcer.new_model(text=COND_TEXT[shape]), ad)
+
+    def call(op):
+        k = op[0]
+        if k == "addg":
+            return e.add_grouping_policy(*op[1])
+        if k == "removeg":
+            return e.remove_grouping_policy(*op[1])
+        if k == "addgs":
+            return e.add_grouping_policies(op[1])
+        if k == "removegs":
+            return e.remove_grouping_policies(op[1])
+        if k == "removefg":
+            return e.remove_filtered_grouping_policy(op[1], *op[2])
+        if k == "condfn":
+            if dom:
+                return e.add_named_domain_link_condition_func("g", op[1][0], op[1][1], op[1][2], _cond_flag)
+            return e.add_named_link_condition_func("g", op[1][0], op[1][1], _cond_flag)
+        if k == "load":
+            return e.load_policy()
+        if k == "build":
+            return e.build_role_links()
+        if k == "clear":
+            return e.clear_policy()
+        if k == "save":
+            return e.save_policy()
+        if k == "autobuild":
+            return e.enable_auto_build_role_links(op[1])
+        if k == "observe":
+            return None
+        raise common.Infra(f"unknown op {op!r}")
+
+    out = []
+    for op in [("observe",)] + list(hist):
+        try:
+            r = call(op)
+            if asyncio.iscoroutine(r):
+                r = ec.run_async(r)
+            ret = repr(r)
+        except Exception as ex:  # noqa
+            ret = "!" + type(ex).__name__
+        decisions, links = [], []
+        for u in COND_NAMES:
+            for d in COND_DOMS if dom else [None]:
+                try:
+                    links.append(sorted(e.cond_rm_map["g"].get_roles(u, *([d] if dom else []))))
+                except Exception as ex:  # noqa
+                    links.append("!" + type(ex).__name__)
+                for x in COND_NAMES:
+                    try:
+                        decisions.append(bool(e.enforce(*([u] + ([d] if dom else []) + ["res_" + x, "read"]))))
+                    except Exception as ex:  # noqa
+                        decisions.append("!" + type(ex).__name__)
+        out.append({"ret": ret, "p": [list(x) for x in e.get_policy()], "g": [list(x) for x in e.get_grouping_policy()],
+                    "store": {k: [list(x) for x in v] for k, v in sorted(ad.store.items())}, "links": links, "decisions": decisions})
+    return out
+
+
+def run_conditional(ctx, res, deep):
+    """sync vs async on the conditional role definitions (implementation side only: the Lean enforcer model has no
+    conditional links; their semantics is C03's model of the role managers)"""
+    rng = ctx["rng"]
+    jobs = []
+    for shape in ("cond", "conddomain"):
+        P, keys = cond_universe(shape)
+        ops = cond_ops(shape)
+        k0 = [k for k in keys if k[:2] in (("alice", "admin"), ("admin", "staff"))]
+        inits = [[], [list(k) + ["T", "x"] for k in k0], [list(k) + [f, "x"] for k, f in zip(k0, "TFTF")] + [["bob", "staff"] + (["d1"] if shape == "conddomain" else []) + ["T", "x"]]]
+        for init in inits:
+            jobs.append((shape, init, []))
+            for a in ops:
+                jobs.append((shape, init, [a]))
+        sample = [rng.choice(ops) for _ in range(12)]
+        for a in ops:
+            for b in sample if not deep else ops:
+                jobs.append((shape, inits[1], [a, b]))
+        for _ in range(150 if not deep else 3000):
+            jobs.append((shape, rng.choice(inits), [rng.choice(ops) for _ in range(rng.randint(3, 8))]))
+    with ec.mp.Pool(12) as pool:
+        so = pool.map(_cond_history, [(s, i, h, False) for s, i, h in jobs], chunksize=8)
+        ao = pool.map(_cond_history, [(s, i, h, True) for s, i, h in jobs], chunksize=8)
+    for (shape, init, hist), rs, ra in zip(jobs, so, ao):
+        res.nontrivial.add(hash(("conditional", shape, repr(init), repr(hist))))
+        steps = [("observe",)] + list(hist)
+        for i, (x, y) in enumerate(zip(rs, ra)):
+            res.evaluations += 1
+            res.count("conditional-step")
+            res.count("conditional-op:" + steps[i][0])
+            if any(d is True for d in x["decisions"]) and any(x["links"]):
+                res.count("conditional:roles-followed")
+            if x != y:
+                k = [k for k in ("ret", "p", "g", "store", "links", "decisions") if x[k] != y[k]][0]
+                res.violation({"signature": f"C18:conditional:{k}:{steps[i][0]}", "stream": "conditional",
+                               "what": f"{shape} model (g with link-condition parameters), started from g = {init}: after {[list(o) for o in steps[1 : i + 1]]} Enforcer and AsyncEnforcer differ in {k}: sync {str(x[k])[:200]!r} vs async {str(y[k])[:200]!r}",
+                               "case": {"shape": shape, "initial_g": init, "history": [list(o) for o in steps[1 : i + 1]]}, "expected": x, "observed": y, "model_text": COND_TEXT[shape]})
+                break
+
+
 def _raising_history(args):
     shape, init, hist, is_async, exc_name = args
     import builtins
@@ -515,6 +669,7 @@ def run_raising_adapter(ctx, res, deep):
 def _run_stage(ctx, res, deep):
     run_raising_adapter(ctx, res, deep)
     run_filtered_loads(ctx, res, deep)
+    run_conditional(ctx, res, deep)
     run_file_adapters(ctx, res, deep)
     jobs = gen(ctx, deep)
     store = {}
@@ -566,6 +721,10 @@ def replay(obj):
         c = obj["case"]
         hist = [tuple(tuple(x) if isinstance(x, list) else x for x in o) for o in c["history"]]
         return _filtered_history((c["shape"], c["rows"], hist, False))[-1] != _filtered_history((c["shape"], c["rows"], hist, True))[-1]
+    if obj.get("stream") == "conditional":
+        c = obj["case"]
+        hist = [tuple(o) for o in c["history"]]
+        return _cond_history((c["shape"], c["initial_g"], hist, False))[-1] != _cond_history((c["shape"], c["initial_g"], hist, True))[-1]
     if obj.get("stream") == "file":
         c = obj["case"]
         hist = [tuple(o) for o in c["history"]]
